@@ -1054,7 +1054,7 @@ class Prop(Check):
         for c, o in zip(cases, obs):
             key = c["kind"] + (":" + c.get("mode", c.get("renderer", "")) if c["kind"] in ("model", "mm") else "")
             kinds[key] = kinds.get(key, 0) + 1
-        gv = graphviz_crosscheck(cases, obs, limit=40)
+        gv = graphviz_crosscheck(cases, obs, limit=12 if len(cases) < 2000 else 60)
         return {"distribution": kinds, "graphviz_crosscheck": gv}
 
 
@@ -1144,5 +1144,9 @@ Prop.THEOREMS = [
     "Dot.C29_record_label",
     "Dot.C29_render_valid",
     "Dot.C29_model_export_valid",
+    "Dot.C29_model_nodes_recognised",
+    "Dot.C29_model_export_total",
+    "Dot.C29_metamodel_dot_valid",
+    "Dot.C29_plantuml_balanced",
     "Dot.C29_unescaped_false",
 ]
